@@ -8,10 +8,11 @@ operation sequence (no bound on lengths, contents or capacities).
 -/
 namespace SgVerif.C50
 
-/-- **One call**: from any state satisfying the representation invariant, every public operation (within `opOk`)
-returns what the list specification returns — including `abort` exactly on the bounds violations — and leaves a
-state whose abstraction is the specification's new list, and the invariant holds again.  The proof is about the index
-arithmetic as written (`expand`, `memmove`, the `int` casts). -/
+/-- **One call**: from any state satisfying the representation invariant, every public operation, with any
+arguments (`opOk` only keeps the length below 2^31, the range of the `int` positions), returns what the list
+specification returns — including `abort` exactly on the bounds violations, whatever the value of the offending
+index — and leaves a state whose abstraction is the specification's new list, and the invariant holds again.  The proof
+is about the index arithmetic as written (`expand`, `memmove`, the `int` conversions). -/
 theorem dynar_step_refines (d : Dynar) (hinv : Inv d) (op : Op) (hop : opOk d op) :
     (cstep d op).1 = (sstep (abs d) op).1 ∧ abs (cstep d op).2 = (sstep (abs d) op).2 ∧ Inv (cstep d op).2 := by
   have hlen := abs_length d
@@ -20,6 +21,7 @@ theorem dynar_step_refines (d : Dynar) (hinv : Inv d) (op : Op) (hop : opOk d op
     simp only [opOk] at hop
     obtain ⟨h1, h2, h3⟩ := insertAt_refines d hinv (d.used : Int) x (by omega) (by omega) hop
     simp only [cstep, sstep]
+    rw [toI32_small d.used hinv.2.1]
     refine ⟨h1, ?_, h3⟩
     rw [h2, Int.toNat_natCast, ← hlen, List.insertIdx_length_self]
   | unshift x =>
@@ -31,10 +33,12 @@ theorem dynar_step_refines (d : Dynar) (hinv : Inv d) (op : Op) (hop : opOk d op
   | insertAt idx x =>
     simp only [opOk] at hop
     simp only [cstep, sstep]
-    by_cases hneg : idx < 0
-    · simp only [insertAt, hneg, if_true, true_or]
+    by_cases hout : idx < 0 ∨ (d.used : Int) < idx
+    · -- refused by the implementation (`_sanity_check_idx` / `_check_sloppy_inbound_idx`) and by the specification
+      have : idx < 0 ∨ idx > ((abs d).length : Int) := by rw [hlen]; omega
+      simp only [insertAt_refused d idx x hout, this, if_true]
       exact ⟨trivial, trivial, hinv⟩
-    · obtain ⟨h1, h2, h3⟩ := insertAt_refines d hinv idx x (by omega) hop.2 hop.1
+    · obtain ⟨h1, h2, h3⟩ := insertAt_refines d hinv idx x (by omega) (by omega) hop
       have : ¬ (idx < 0 ∨ idx > ((abs d).length : Int)) := by rw [hlen]; omega
       simp only [this, if_false]
       exact ⟨h1, h2, h3⟩
@@ -42,12 +46,8 @@ theorem dynar_step_refines (d : Dynar) (hinv : Inv d) (op : Op) (hop : opOk d op
     simp only [cstep, sstep]
     rw [toI32_pred d.used hinv.2.1, List.getLast?_eq_getElem?, hlen]
     by_cases h0 : d.used = 0
-    · have hin : inbound d ((d.used : Int) - 1) = false := by
-        cases h : inbound d ((d.used : Int) - 1) with
-        | false => rfl
-        | true => have := (inbound_iff d hinv _).mp h; omega
-      have hnone : (abs d)[d.used - 1]? = none := List.getElem?_eq_none (by omega)
-      simp only [removeAt, hin, Bool.not_false, if_true, hnone]
+    · have hnone : (abs d)[d.used - 1]? = none := List.getElem?_eq_none (by omega)
+      simp only [removeAt_refused d ((d.used : Int) - 1) (Or.inl (by omega)), hnone]
       exact ⟨trivial, trivial, hinv⟩
     · have e : (d.used : Int) - 1 = ((d.used - 1 : Nat) : Int) := by omega
       rw [e]
@@ -77,12 +77,8 @@ theorem dynar_step_refines (d : Dynar) (hinv : Inv d) (op : Op) (hop : opOk d op
   | shift =>
     simp only [cstep, sstep]
     by_cases h0 : d.used = 0
-    · have hin : inbound d 0 = false := by
-        cases h : inbound d 0 with
-        | false => rfl
-        | true => have := (inbound_iff d hinv _).mp h; omega
-      have hnil : abs d = [] := List.eq_nil_of_length_eq_zero (by omega)
-      simp only [removeAt, hin, Bool.not_false, if_true, hnil]
+    · have hnil : abs d = [] := List.eq_nil_of_length_eq_zero (by omega)
+      simp only [removeAt_refused d 0 (Or.inr (by omega)), hnil]
       exact ⟨trivial, trivial, hinv⟩
     · obtain ⟨v, hv, h1, h2, h3⟩ := removeAt_refines d hinv 0 (by omega)
       simp only [Int.natCast_zero] at h1 h2 h3
@@ -97,11 +93,7 @@ theorem dynar_step_refines (d : Dynar) (hinv : Inv d) (op : Op) (hop : opOk d op
   | removeAt idx =>
     simp only [cstep, sstep]
     by_cases hneg : idx < 0
-    · have hin : inbound d idx = false := by
-        cases h : inbound d idx with
-        | false => rfl
-        | true => have := (inbound_iff d hinv _).mp h; omega
-      simp only [removeAt, hin, Bool.not_false, if_true, hneg]
+    · simp only [removeAt_refused d idx (Or.inl hneg), hneg, if_true]
       exact ⟨trivial, trivial, hinv⟩
     · simp only [hneg, if_false]
       by_cases hu : idx < d.used
@@ -109,19 +101,13 @@ theorem dynar_step_refines (d : Dynar) (hinv : Inv d) (op : Op) (hop : opOk d op
         obtain ⟨v, hv, h1, h2, h3⟩ := removeAt_refines d hinv i (by omega)
         simp only [Int.toNat_natCast, hv]
         exact ⟨h1, h2, h3⟩
-      · have hin : inbound d idx = false := by
-          cases h : inbound d idx with
-          | false => rfl
-          | true => have := (inbound_iff d hinv _).mp h; omega
-        have hnone : (abs d)[idx.toNat]? = none := List.getElem?_eq_none (by omega)
-        simp only [removeAt, hin, Bool.not_false, if_true, hnone]
+      · have hnone : (abs d)[idx.toNat]? = none := List.getElem?_eq_none (by omega)
+        simp only [removeAt_refused d idx (Or.inr (by omega)), hnone]
         exact ⟨trivial, trivial, hinv⟩
   | get idx =>
-    simp only [opOk] at hop
     simp only [cstep, sstep]
-    rw [toI32_small idx hop]
     by_cases hu : idx < d.used
-    · have hin : inbound d (idx : Int) = true := (inbound_iff d hinv _).mpr ⟨by omega, by omega⟩
+    · have hin : inbound d idx = true := (inbound_iff d _).mpr hu
       obtain ⟨hsz, hlt, hinit⟩ := hinv
       obtain ⟨v, hv⟩ := Option.isSome_iff_exists.mp (hinit idx hu)
       have hget : (abs d)[idx]? = some v := by
@@ -130,10 +116,10 @@ theorem dynar_step_refines (d : Dynar) (hinv : Inv d) (op : Op) (hop : opOk d op
       have : ¬ idx ≥ d.size := by omega
       simp only [hin, Bool.not_true, Bool.false_eq_true, if_false, this, hv, hget]
       exact ⟨trivial, trivial, hsz, hlt, hinit⟩
-    · have hin : inbound d (idx : Int) = false := by
-        cases h : inbound d (idx : Int) with
+    · have hin : inbound d idx = false := by
+        cases h : inbound d idx with
         | false => rfl
-        | true => have := (inbound_iff d hinv _).mp h; omega
+        | true => have := (inbound_iff d _).mp h; omega
       have hnone : (abs d)[idx]? = none := List.getElem?_eq_none (by omega)
       simp only [hin, Bool.not_false, if_true, hnone]
       exact ⟨trivial, trivial, hinv⟩
@@ -179,14 +165,16 @@ theorem dynar_step_refines (d : Dynar) (hinv : Inv d) (op : Op) (hop : opOk d op
     simp only [cstep, sstep, cells_of_inv d hinv]
     exact ⟨trivial, trivial, hinv⟩
 
-/-- every call of the sequence is within `opOk` in the state where it is issued -/
+/-- the dynar stays shorter than 2^31 elements along the run (`opOk` in the state where each call is issued) -/
 def runOk (d : Dynar) : List Op → Prop
   | [] => True
   | op :: ops => opOk d op ∧ runOk (cstep d op).2 ops
 
-/-- **All operation sequences** (any length): the results returned along the run are those of the list, and the
-final abstraction is the final list. -/
-theorem dynar_refines_list_partial (d : Dynar) (hinv : Inv d) (ops : List Op) (hok : runOk d ops) :
+/-- **All operation sequences** (any length, any arguments — including every out-of-range index, which must be refused
+by an assertion): the results returned along the run are those of the list, and the final abstraction is the final
+list.  Full strength since the fixes of props/C50/fix_series (it used to be `dynar_refines_list_partial`, excluding
+`insertAt idx > used` and `get idx ≥ 2^31`). -/
+theorem dynar_refines_list (d : Dynar) (hinv : Inv d) (ops : List Op) (hok : runOk d ops) :
     (runC d ops).1 = (runS (abs d) ops).1 ∧ abs (runC d ops).2 = (runS (abs d) ops).2 ∧ Inv (runC d ops).2 := by
   induction ops generalizing d with
   | nil => exact ⟨rfl, rfl, hinv⟩
@@ -202,26 +190,30 @@ theorem dynar_new_refines_nil : Inv Dynar.new ∧ abs Dynar.new = [] := by
   refine ⟨⟨by simp [Dynar.new], by simp [Dynar.new], ?_⟩, rfl⟩
   intro i hi; simp [Dynar.new] at hi
 
-/-
-**Full statement** (false on the current code): `dynar_refines_list` = the theorem above with `runOk` replaced by
-"`used` stays below 2^31" only, i.e. *including* `insertAt idx` with `idx > used` and `get idx` with `idx ≥ 2^31`,
-for which the list specification answers `abort`.  The two excluded classes are exactly the two counterexamples:
+/-!
+### Regression: the code before the fixes (`insertAtOld`, `getOld` in Dynar.lean)
+These are the two classes the theorem above had to exclude (keys `dynar-insert-past-end-unchecked`,
+`dynar-index-truncated-to-int`).  Each witness is stated for the old code, and the same call on the current model
+is shown to be refused.
 -/
 
-/-- `xbt_dynar_insert_at` past the end is not refused: on a fresh dynar `insert_at(1, 7)` returns normally, `used`
-becomes 1 and cell 0 — now the only element — was never written (the specification aborts). -/
-theorem dynar_insert_past_end_counterexample :
-    (cstep Dynar.new (.insertAt 1 7)).1 = .unit ∧ (sstep [] (.insertAt 1 7)).1 = .abort ∧
-    (cstep Dynar.new (.insertAt 1 7)).2.used = 1 ∧ cells (cstep Dynar.new (.insertAt 1 7)).2 = none := by decide
+/-- old `xbt_dynar_insert_at` past the end was not refused: on a fresh dynar `insert_at(1, 7)` returned normally, `used`
+became 1 and cell 0 — then the only element — was never written (the specification aborts; so does the fixed code). -/
+theorem dynar_insert_past_end_prefix_regression :
+    (insertAtOld Dynar.new 1 7).1 = .unit ∧ (sstep [] (.insertAt 1 7)).1 = .abort ∧
+    (insertAtOld Dynar.new 1 7).2.used = 1 ∧ cells (insertAtOld Dynar.new 1 7).2 = none ∧
+    (cstep Dynar.new (.insertAt 1 7)).1 = .abort := by decide
 
-/-- … and further away it writes outside the allocation: `insert_at(3, 7)` on a fresh dynar (capacity 2) -/
-theorem dynar_insert_past_end_counterexample_overflow :
-    (cstep Dynar.new (.insertAt 3 7)).1 = .ub ∧ (sstep [] (.insertAt 3 7)).1 = .abort := by decide
+/-- … and further away it wrote outside the allocation: `insert_at(3, 7)` on a fresh dynar (capacity 2) -/
+theorem dynar_insert_past_end_prefix_regression_overflow :
+    (insertAtOld Dynar.new 3 7).1 = .ub ∧ (sstep [] (.insertAt 3 7)).1 = .abort ∧
+    (cstep Dynar.new (.insertAt 3 7)).1 = .abort := by decide
 
-/-- the bound check of `xbt_dynar_get_cpy` sees `(int)idx`: with one element, index 2^32 passes it and the read is
-outside the allocation (the specification aborts) -/
-theorem dynar_index_truncated_counterexample :
-    (cstep (cstep Dynar.new (.push 5)).2 (.get 4294967296)).1 = .ub ∧ (sstep [5] (.get 4294967296)).1 = .abort := by decide
+/-- the old bound check of `xbt_dynar_get_cpy` saw `(int)idx`: with one element, index 2^32 passed it and the read was
+outside the allocation (the specification aborts; so does the fixed code) -/
+theorem dynar_index_truncated_prefix_regression :
+    (getOld (cstep Dynar.new (.push 5)).2 4294967296).1 = .ub ∧ (sstep [5] (.get 4294967296)).1 = .abort ∧
+    (cstep (cstep Dynar.new (.push 5)).2 (.get 4294967296)).1 = .abort := by decide
 
 /-! ### non-vacuity -/
 instance (d : Dynar) (op : Op) : Decidable (opOk d op) := by
@@ -235,10 +227,14 @@ def decRunOk : (d : Dynar) → (ops : List Op) → Decidable (runOk d ops)
 
 instance (d : Dynar) (ops : List Op) : Decidable (runOk d ops) := decRunOk d ops
 
-example : runOk Dynar.new [.push 1, .unshift 2, .insertAt 1 3, .set 5 9, .removeAt 0, .pop, .sort, .get 1, .foreach] := by
+example : runOk Dynar.new [.push 1, .unshift 2, .insertAt 1 3, .set 5 9, .removeAt 0, .pop,
+    .insertAt 40 1, .get 4294967296, .get 18446744073709551615, .removeAt (-1), .insertAt (-2147483648) 0,
+    .sort, .get 1, .foreach] := by
   decide
-example : (runC Dynar.new [.push 1, .unshift 2, .insertAt 1 3, .set 5 9, .removeAt 0, .foreach, .pop, .get 7]).1
-    = [.unit, .unit, .unit, .unit, .val 2, .list [3, 1, 0, 0, 9], .val 9, .abort] := by decide
+example : (runC Dynar.new [.push 1, .unshift 2, .insertAt 1 3, .set 5 9, .removeAt 0, .foreach, .pop, .get 7,
+      .insertAt 5 3, .get 4294967296, .foreach]).1
+    = [.unit, .unit, .unit, .unit, .val 2, .list [3, 1, 0, 0, 9], .val 9, .abort,
+       .abort, .abort, .list [3, 1, 0, 0]] := by decide
 
 /-!
 Part 2: xbt_dict refines an association map, **for every hash function `h`**.  The abstract map is the relation
